@@ -10,6 +10,7 @@ import (
 	"math/rand"
 	"reflect"
 	"sort"
+	"strconv"
 	"strings"
 	"unsafe"
 )
@@ -424,50 +425,43 @@ func (g *Gen) enum(v reflect.Value) bool {
 	if g.Mode == GenEmpty {
 		return true
 	}
+	if g.Mode == GenRandom && g.NilAt < 0 && g.R.Intn(4) == 0 {
+		return false // a non-member value
+	}
 	pick := vals[g.R.Intn(len(vals))]
 	setBasic(v, pick)
 	return true
 }
 
 func setBasic(v reflect.Value, x any) {
+	txt := fmt.Sprint(x)
 	switch v.Kind() {
 	case reflect.String:
-		v.SetString(fmt.Sprint(x))
+		v.SetString(txt)
 	case reflect.Int, reflect.Int8, reflect.Int16, reflect.Int32, reflect.Int64:
-		switch n := x.(type) {
-		case float64:
-			v.SetInt(int64(n))
-		case int64:
-			v.SetInt(n)
-		case int:
-			v.SetInt(int64(n))
-		case string:
-			var i int64
-			fmt.Sscan(n, &i)
-			v.SetInt(i)
+		if f, ok := x.(float64); ok {
+			v.SetInt(int64(f))
+			return
 		}
+		n, _ := strconv.ParseInt(txt, 10, 64)
+		v.SetInt(n)
 	case reflect.Uint, reflect.Uint8, reflect.Uint16, reflect.Uint32, reflect.Uint64:
-		switch n := x.(type) {
-		case float64:
-			v.SetUint(uint64(n))
-		case uint64:
-			v.SetUint(n)
-		case int:
-			v.SetUint(uint64(n))
-		case string:
-			var i uint64
-			fmt.Sscan(n, &i)
-			v.SetUint(i)
+		if f, ok := x.(float64); ok {
+			v.SetUint(uint64(f))
+			return
 		}
+		n, _ := strconv.ParseUint(txt, 10, 64)
+		v.SetUint(n)
 	case reflect.Float32, reflect.Float64:
-		switch n := x.(type) {
-		case float64:
-			v.SetFloat(n)
-		case string:
-			var f float64
-			fmt.Sscan(n, &f)
+		if f, ok := x.(float64); ok {
 			v.SetFloat(f)
+			return
 		}
+		f, _ := strconv.ParseFloat(txt, 64)
+		if v.Kind() == reflect.Float32 {
+			f = float64(float32(f))
+		}
+		v.SetFloat(f)
 	}
 }
 
